@@ -88,6 +88,37 @@ func inferContracts(fn *ssa.Function) Contracts {
 			nilnessTablesUnderPred[pred] = nilnessTableSetUnderThisPred
 		}
 
+		// Along a back edge (b dominates pred) the values defined inside the loop, including the phis
+		// of b itself, are about to be redefined by the next iteration. Evaluate the phis of b with
+		// what the table knows about the previous iteration, then forget the values of the previous
+		// iteration (expandNilness never overwrites a value that is already in the table).
+		for i, pred := range b.Preds {
+			tables, ok := nilnessTablesUnderPred[pred]
+			if !ok || !b.Dominates(pred) {
+				continue
+			}
+			for _, table := range tables {
+				var phis []*ssa.Phi
+				var phiNilness []nilness
+				for _, instr := range b.Instrs {
+					if phi, ok := instr.(*ssa.Phi); ok {
+						phis = append(phis, phi)
+						phiNilness = append(phiNilness, table.nilnessOf(phi.Edges[i]))
+					}
+				}
+				for v := range table {
+					if instr, ok := v.(ssa.Instruction); ok && b.Dominates(instr.Block()) {
+						delete(table, v)
+					}
+				}
+				for j, phi := range phis {
+					if phiNilness[j] != unknown {
+						table.expandNilness(phi, phiNilness[j])
+					}
+				}
+			}
+		}
+
 		// Transfer nilness inside the block
 		for _, instr := range b.Instrs {
 			switch instr := instr.(type) {
